@@ -11,12 +11,12 @@ import (
 )
 
 const (
-	errNotLeader   = "node is not the leader"
-	errEnqueue     = "timed out enqueuing operation"
-	errTransfer    = "leadership transfer in progress"
-	errShutdown    = "raft is already shutdown"
-	errLeaderLost  = "leadership lost while committing log"
-	errAborted     = "snapshot restored while committing log"
+	errNotLeader  = "node is not the leader"
+	errEnqueue    = "timed out enqueuing operation"
+	errTransfer   = "leadership transfer in progress"
+	errShutdown   = "raft is already shutdown"
+	errLeaderLost = "leadership lost while committing log"
+	errAborted    = "snapshot restored while committing log"
 )
 
 func definiteFailure(err string) bool {
